@@ -1,19 +1,19 @@
 SPECIFICATION Spec
 CONSTANTS
-  Helper = "MC"
+  Helper = "PHC"
   Mode = "with"
-  Prims <- McTimed
-  MaxLen = 3
-  DH = 300
+  Prims <- HlQuick
+  MaxLen = 1
+  DH = 500
   DV = 500
   DL = 0
   Period = 200
   X0 = 0
   Y0 = 0
-  Z0 = 0
+  Z0 = 200
   Lats = {}
   MaxLat = 0
-  Bug = "none"
+  Bug = "takeoffadd"
 INVARIANT NoViolation
 INVARIANT Ended
 INVARIANT PosTracks
